@@ -300,4 +300,35 @@ func (fg *FG) selectInstr(st *State, x *ssa.Select) {
 		fg.setHeap(st, "CH_len", fmt.Sprintf("(ite %s (store %s %s (+ (select %s %s) 1)) %s)", chosen, l, ch.T, l, ch.T, l))
 	}
 	fg.vals[x] = Val{Tuple: res, Ty: x.Type()}
+	// engine-maintained volatile ghost world.lastSel: the channel of the case this select fired on
+	// (0 for the default case); every call forgets it (see forgetLastSel)
+	if fg.lastSelDeclared() {
+		term := "0"
+		for i := len(x.States) - 1; i >= 0; i-- {
+			term = fmt.Sprintf("(ite (= %s %d) %s %s)", idx, i, fg.val(x.States[i].Chan).T, term)
+		}
+		fg.declare("$world", "Int")
+		if !fg.declSet["ax.world"] {
+			fg.declSet["ax.world"] = true
+			fg.decls = append(fg.decls, "(assert (> $world 0))")
+		}
+		fg.heapSort["G_any_lastSel"] = "(Array Int Int)"
+		cur := fg.heap(st, "G_any_lastSel", "")
+		fg.guardLoopWrite("G_any_lastSel")
+		fg.setHeap(st, "G_any_lastSel", fmt.Sprintf("(store %s $world %s)", cur, term))
+	}
+}
+
+func (fg *FG) lastSelDeclared() bool {
+	_, ok := fg.g.ct.GhostFields["any.lastSel"]
+	return ok
+}
+
+// forgetLastSel: a callee may run selects of its own.
+func (fg *FG) forgetLastSel(st *State) {
+	if !fg.lastSelDeclared() {
+		return
+	}
+	fg.heapSort["G_any_lastSel"] = "(Array Int Int)"
+	fg.havocHeap(st, "G_any_lastSel")
 }
